@@ -29,7 +29,7 @@ RULE = ("case = invalid-request class (%d classes covering every item of the sta
         "arguments x, for Weaver entry points, a random valid history of 0..6 operations. non-trivial: Weaver classes "
         "whose pre-state differs from a freshly constructed object, and every function-level rejection; distinct by "
         "case index." % len(CLASSES))
-REQUIRED_MONITORS = ["c20:" + c for c in CLASSES] + ["c20:state_snapshot", "c20:fuzzed_request", "c20:fuzzed_rejected"]
+REQUIRED_MONITORS = ["c20:" + c for c in CLASSES] + ["c20:state_snapshot", "c20:fuzzed_request", "c20:fuzzed_rejected", "c20:twin_continuation"]
 ASSUMPTIONS = ["out-of-range fixed-point INDICES and empty query lists are not exercised (outside the statement)"]
 NSHARDS = 16
 BOGUS = ["bogus", "", "Trapezoid", "rect", "nearest", "LINEAR", "quadratic", None, 3]
@@ -323,6 +323,10 @@ def run_case(ctx, kind_, idx):
                 else:
                     raise KeyError(c)
             before = snap(wv) if wv is not None else None
+            twin = None
+            if wv is not None:
+                import copy
+                twin = copy.deepcopy(wv)          # never sees the rejected request
             ctx.judged()
             ctx.monitor("c20:" + c)
             try:
@@ -344,6 +348,20 @@ def run_case(ctx, kind_, idx):
                 fresh = snap(Weaver(x.copy(), y.copy()))
                 if not same_state(before[:4], fresh[:4]):
                     ctx.nontriv("c20", idx)
+                # "untouched" also means: the object goes on behaving like one that never saw the rejected request
+                cont = []
+                for _ in range(int(rng.integers(1, 4))):
+                    op = W.gen_op(rng, wv)
+                    if op is None:
+                        continue
+                    cont.append(W.printable(op))
+                    W.apply(wv, op)
+                    W.apply(twin, op)
+                    ctx.monitor("c20:twin_continuation")
+                    if not same_state(snap(wv), snap(twin)):
+                        ctx.violation("behaviour_after_rejection_differs_from_untouched_twin:" + c, cid,
+                                      {"continuation": cont, "case": info})
+                        return
             else:
                 ctx.nontriv("c20", idx)
     except Exception as e:
